@@ -223,6 +223,7 @@ func main() {
 		out.Inconclusive = append(out.Inconclusive, fmt.Sprintf("solver reported %d error lines", e.solver.Stats.Errors))
 	}
 	if os.Getenv("GOSYM_DEBUG") != "" {
+		fmt.Fprintln(os.Stderr, "aborts:", abortReasons)
 		fmt.Fprintln(os.Stderr, "merge failures by site:", mergeFailCounts)
 		fmt.Fprintln(os.Stderr, "fork sites:", forkSites)
 		fmt.Fprintln(os.Stderr, "nomerge (arms):", noMergeArms)
